@@ -16,10 +16,17 @@ OBVIOUS_REDIRECTS_RE = re.compile(
     % r"(?:redirect(?:_to)?|target|redir|next|link|orig|goto|url|[luq])",
     re.I,
 )
+UNRESERVED_ESCAPE_RE = re.compile(
+    r"%(?:4[1-9a-f]|5[0-9a]|6[1-9a-f]|7[0-9a]|3[0-9]|2[de]|5f|7e)", re.I
+)
 REDIRECTION_DOMAINS_RE = re.compile(
     r"(?:\.ampproject\.org/[cv]/(?:s/)?|bc\.marfeelcache\.com/amp/|bc\.marfeel\.com/)",
     re.I,
 )
+
+
+def unquote_unreserved(match):
+    return chr(int(match.group(0)[1:], 16))
 
 
 def infer_redirection(url, recursive=True):
@@ -42,6 +49,9 @@ def infer_redirection(url, recursive=True):
     # NOTE: hints are searched in the url as it will be cleaned, else a stray
     # control character can hide (or fake) a redirection
     url = CONTROL_CHARS_RE.sub("", url).strip()
+
+    # NOTE: a hint can be written with escapes ('%75rl=' is 'url=')
+    url = UNRESERVED_ESCAPE_RE.sub(unquote_unreserved, url)
 
     redirection_split = REDIRECTION_DOMAINS_RE.split(url, 1)
 
